@@ -205,7 +205,7 @@ theorem C11_no_quantizer_cell (cls : CellCls) (c : LCfg) (hcls : cls ≠ .gru)
   · simp [qcell, kerasCell, qLSTMCell, kLSTMCell, qw, hq]
   · exact absurd rfl hcls
 
-/-- FINDING (qrecurrent.py:1114-1117): with `recurrent_quantizer=None` QGRUCell multiplies the
+/-- FINDING (qrecurrent.py:1117-1120): with `recurrent_quantizer=None` QGRUCell multiplies the
     state by `self.kernel` (the INPUT kernel) instead of `self.recurrent_kernel`: the no-quantizer
     clause fails for QGRU.  Witness in the integers: units = 1, kernel = 2, recurrent kernel = 3,
     state 1, input 0, `dot` = product, everything else transparent. -/
